@@ -2460,8 +2460,44 @@ fn run_validate(case: &Value) -> Value {
             }
         }
     }
+    // the lock-freshness test of a locked load (Store::imports_lock_outdated): the import names and excluded crates of
+    // config.toml against the sections of imports.lock and the crates they hold entries for; names interned in order of
+    // appearance, both maps walked in key order
+    let mut lnames: Vec<String> = Vec::new();
+    let mut lidx = |n: &str| -> u64 {
+        match lnames.iter().position(|x| x == n) {
+            Some(i) => i as u64,
+            None => {
+                lnames.push(n.to_owned());
+                (lnames.len() - 1) as u64
+            }
+        }
+    };
+    let mut imports_cfg: Vec<Value> = Vec::new();
+    for (name, imp) in &config.imports {
+        let n = lidx(name);
+        let mut ex: Vec<Value> = Vec::new();
+        for x in &imp.exclude {
+            ex.push(json!(lidx(x)));
+        }
+        imports_cfg.push(c("Build_import_cfg", vec![json!(n), Value::Array(ex)]));
+    }
+    let mut lock_sections: Vec<Value> = Vec::new();
+    for (name, f) in &imports.audits {
+        let n = lidx(name);
+        let mut a: Vec<Value> = Vec::new();
+        for k in f.audits.keys() {
+            a.push(json!(lidx(k)));
+        }
+        let mut w: Vec<Value> = Vec::new();
+        for k in f.wildcard_audits.keys() {
+            w.push(json!(lidx(k)));
+        }
+        lock_sections.push(c("Build_lock_section", vec![json!(n), Value::Array(a), Value::Array(w)]));
+    }
     let model_in = json!({"locked": locked, "shadows": shadows, "table": table, "max_end": z(day(max_end)),
-                          "ends": ends, "refs": refs, "peers": peer_tables});
+                          "ends": ends, "refs": refs, "peers": peer_tables,
+                          "imports_cfg": imports_cfg, "lock_sections": lock_sections});
 
     // ---- the real thing: canonical files (so that a locked load does not trip over
     // the generator's formatting), load, go online, resolve, compute updates
